@@ -802,26 +802,6 @@ Fixpoint lin_ok (s : sworld) (h : list cevent) : bool :=
 Fixpoint lin_final (s : sworld) (h : list cevent) : sworld :=
   match h with [] => s | e :: r => lin_final (snd (sreq s (e_req e))) r end.
 
-(* sound oracle for explored schedules that needs no knowledge of the critical sections: is there ANY
-   interleaving of the threads' calls (each thread in program order) that, replayed on the plain map
-   from the empty vector, returns exactly the observed results?  thr = per thread the remaining
-   (call, observed result) pairs; fuel >= number of remaining calls *)
-Fixpoint sc_try (fuel : nat) (s : sworld) (thr : list (list (creq * result))) : bool :=
-  match fuel with
-  | O => forallb (fun l => match l with [] => true | _ => false end) thr
-  | S f =>
-    forallb (fun l => match l with [] => true | _ => false end) thr ||
-    existsb (fun i =>
-      match nth i thr [] with
-      | (q, r) :: rest => let '(x, s') := sreq s q in sres_eq x r && sc_try f s' (set_nth thr i rest)
-      | [] => false
-      end) (seq 0 (length thr))
-  end.
-Definition sc_explains (progs : list (list creq)) (res : list (list result)) : bool :=
-  Nat.eqb (length progs) (length res) &&
-  forallb (fun pr => Nat.eqb (length (fst pr)) (length (snd pr))) (combine progs res) &&
-  sc_try (length (concat progs)) init_sworld_c (map (fun pr => combine (fst pr) (snd pr)) (combine progs res)).
-
 (* stress-run oracle (sound for every interleaving): per tuple, children created = successful
    deletions + live children, at most one live child; per child, increments applied = value read *)
 Definition stress_ok (tuples : list (Z * Z * Z)) (children : list (Z * Z)) : bool :=
